@@ -16,6 +16,7 @@
 //   writes the bytes to /tmp/nvrdXXXXXX.<ext> and calls the real file_read() on a fresh UtilContext
 //   (what naken_util does), fmt = auto lets get_file_type() decide.
 //   -> ret=<n> type=<name> low=<hex> high=<hex> end=<l|b> cpu=<name> nz=<addr:hexbytes;...> syms=<...>
+//   syms: name=hexvalue,... (bytes outside 0x21..0x7e and , = % as %XX)
 //   nz lists every non-zero byte of the loaded memory pages (readers use write8, so the debug markers stay empty).
 
 #include "core/UtilContext.h"
@@ -207,8 +208,22 @@ static std::string cmd_rd(const std::vector<std::string> &args)
     char buf[600];
     while (util->symbols.iterate(&iter) != -1)
     {
-      snprintf(buf, sizeof(buf), "%s%s=%x", s.empty() ? "" : ",", iter.name, iter.address);
-      s += buf;
+      // bytes outside the printable ASCII range (and the separators , = %) are written as %XX
+      std::string nm;
+      for (const unsigned char *q = (const unsigned char *)iter.name; *q != 0; q++)
+      {
+        if (*q < 0x21 || *q > 0x7e || *q == ',' || *q == '=' || *q == '%')
+        {
+          snprintf(buf, sizeof(buf), "%%%02X", *q);
+          nm += buf;
+        }
+          else
+        {
+          nm.push_back((char)*q);
+        }
+      }
+      snprintf(buf, sizeof(buf), "=%x", iter.address);
+      s += (s.empty() ? "" : ",") + nm + buf;
     }
     out += " syms=" + (s.empty() ? std::string("-") : s);
   }
